@@ -96,6 +96,21 @@ def reach0 (n : Nat) (w : Nat → Nat → Rat) : List Bool :=
 
 def connected (n : Nat) (w : Nat → Nat → Rat) : Bool := (reach0 n w).all id
 
+/-- one round of backward closure: `v` is marked when it is, or when an edge of positive weight leads to a marked node -/
+def reachStep (n : Nat) (w : Nat → Nat → Rat) (r : List Bool) : List Bool :=
+  tab n fun v => r.getD v false || (List.range n).any fun u => decide (0 < w v u) && r.getD u false
+
+/-- the nodes that reach a seed within `k` steps -/
+def reachIter (n : Nat) (w : Nat → Nat → Rat) (s : Seeds) : Nat → List Bool
+  | 0 => tab n fun v => isSeed s v
+  | k+1 => reachStep n w (reachIter n w s k)
+
+/-- every node reaches a seed along edges of positive weight (executable guard of the harmonic spec lines) -/
+def allReachSeed (n : Nat) (w : Nat → Nat → Rat) (s : Seeds) : Bool := (reachIter n w s n).all id
+
+def nonnegW (n : Nat) (w : Nat → Nat → Rat) : Bool :=
+  (List.range n).all fun i => (List.range n).all fun j => decide (0 ≤ w i j)
+
 /-- the linear system of the Dirichlet problem as an augmented `n × (n+1)` matrix -/
 def dirichletSystem (n : Nat) (w : Nat → Nat → Rat) (s : Seeds) : Array (Array Rat) :=
   Array.ofFn (n := n) fun i =>
